@@ -43,12 +43,16 @@ def unescapeAll : Bytes → Bytes
 def rewriteTarget (rel : Bytes) : Bytes :=
   if validEsc (cutAt 63 rel).1 then unescapeAll (cutAt 63 rel).1 else (cutAt 63 rel).1
 
-/-- one request through the site: `tries = none`: no `try_files` directive -/
-def siteServe (fs : FS) (c : Cfg) (tries : Option (List TryFile)) (path : Bytes) : Traced Outcome :=
+/-- one request through the site: `tries = none`: no `try_files` directive; `pol` / `fallback`: the
+    `policy` block of `try_files` -/
+def siteServe (fs : FS) (c : Cfg) (tries : Option (List TryFile)) (path : Bytes)
+    (pol : Option ScanPolicy := none) (fallback : Bool := false) : Traced Outcome :=
   match tries with
   | none => serve fs c path path
   | some ts =>
-    match matchFile fs c.root ts false path with
+    match (match pol with
+           | none => matchFile fs c.root ts fallback path
+           | some sp => matchFileScan fs c.root ts sp path) with
     | (.matched _ rel _, t) => appendTrace t (serve fs c (rewriteTarget rel) path)
     | (.noMatch, t) => appendTrace t (serve fs c path path)
 
